@@ -60,6 +60,8 @@ type c12case struct {
 	Root *Abs  `json:"root"`
 	Pr   bool  `json:"pr,omitempty"` // also run the script re-parsed from its own String()
 	Src  string `json:"src,omitempty"`
+	Cid  int    `json:"cid,omitempty"` // nest: all sub-expressions of one random tree share the id
+	Sz   int    `json:"sz,omitempty"`  // nest: number of operator nodes
 }
 
 type group struct {
@@ -76,6 +78,8 @@ type c12event struct {
 	Root *Abs    `json:"root"`
 	Text string  `json:"text"`
 	Src  string  `json:"src,omitempty"`
+	Cid  int     `json:"cid,omitempty"`
+	Sz   int     `json:"sz,omitempty"`
 	O    []group `json:"o"`
 }
 
@@ -186,7 +190,7 @@ func runC12(c *c12case) *c12event {
 		}
 		ds = runRoutes(&dual, elem, rootMembers, c.Pr)
 	}
-	ev := &c12event{Ast: c.Ast, Elem: c.Elem, Root: c.Root, Text: c.Ast.Text(), Src: c.Src}
+	ev := &c12event{Ast: c.Ast, Elem: c.Elem, Root: c.Root, Text: c.Ast.Text(), Src: c.Src, Cid: c.Cid, Sz: c.Sz}
 	idx := map[string]int{}
 	for i, r := range rs {
 		d := -1
@@ -341,13 +345,31 @@ func nestC12(n int, seed int64) {
 		if rng.Intn(3) != 0 {
 			root["k"] = vals[rng.Intn(len(vals))]
 		}
-		c := c12case{Ast: tree(1 + rng.Intn(3)), Elem: absOf(elem), Root: absOf(root), Pr: true, Src: "nest"}
-		b, err := json.Marshal(&c)
-		if err != nil {
-			panic(err)
+		// the tree and every operator sub-expression of it, each as a case of its own on the same data: the smallest
+		// deviating one names the cell (shrinking by sub-expression)
+		ea, ra := absOf(elem), absOf(root)
+		var emit func(t *AST) int
+		emit = func(t *AST) int {
+			if t.Op == "const" || t.Op == "path" {
+				return 0
+			}
+			sz := 1
+			if t.L != nil {
+				sz += emit(t.L)
+			}
+			if t.R != nil {
+				sz += emit(t.R)
+			}
+			c := c12case{Ast: t, Elem: ea, Root: ra, Pr: true, Src: "nest", Cid: i + 1, Sz: sz}
+			b, err := json.Marshal(&c)
+			if err != nil {
+				panic(err)
+			}
+			wr.Write(b)
+			wr.WriteByte('\n')
+			return sz
 		}
-		wr.Write(b)
-		wr.WriteByte('\n')
+		emit(tree(1 + rng.Intn(3)))
 	}
 	wr.Flush()
 }
